@@ -42,7 +42,8 @@ TRUSTED_BASE = [
     "IsoDT/Spec/*.lean is the reading of the calendar definition, instants and text forms",
     "harness/translate.py (source -> IsoDT/Gen/*.lean literals)",
     "harness correspondence: generators, canonicalisation, compiled driver (lean/Main.lean)",
-    "CPython (big ints, re, str formatting, functools.lru_cache); floats are not modelled",
+    "CPython (big ints, re, str formatting, functools.lru_cache); binary64 rounding is not modelled: fractional "
+    "behaviour is proved over exact rationals where a *q theorem exists and otherwise observed to 1 us",
 ]
 
 
